@@ -155,8 +155,11 @@ HandFold(list, i, h, hl, v) ==
            nhl == Adv(hl[w], hs \cup everUnav[w])
            v1 == IF e.checkOrder /\ sn <= prev THEN {IF sn \in hs THEN "C01_once" ELSE "C01_order"} ELSE {}
            v2 == IF e.checkHoles /\ nhl < sn THEN {"C01_hole"} ELSE {}
-           v3 == IF sn \notin DOMAIN deliv[w] THEN {"C01_never_received"}
-                 ELSE IF <<e.pid, e.ts>> \notin deliv[w][sn] THEN {"C01_identity"} ELSE {}
+           fragd == sn \in DOMAIN frags[w]      \* fragments of sn are (still) being assembled
+           v3 == IF sn \notin DOMAIN deliv[w]
+                   THEN {"C01_never_received"} \cup (IF fragd THEN {"C05_delivered_before_all_fragments_arrived"} ELSE {})
+                 ELSE IF <<e.pid, e.ts>> \notin deliv[w][sn]
+                   THEN {"C01_identity", "C05_reassembled_bytes_differ"} ELSE {}
        IN HandFold(list, i + 1, [h EXCEPT ![w] = Append(@, sn)], [hl EXCEPT ![w] = nhl],
                    v \cup v1 \cup v2 \cup v3)
 
